@@ -1194,3 +1194,22 @@ Lemma run_case_is_step k i o :
 Proof.
   intros H. unfold run_case. split; [apply run_obs_length|apply run_obs_nth_from; exact H].
 Qed.
+
+(* ================================================================== the unpatched mover *)
+
+(* why SingleGrid needs its own move_agent (fixes/C08-2): the inherited _Grid.move_agent
+   (grid_move_agent: torus_adj; remove; place) is NOT atomic on a SingleGrid - defect #8 of the
+   unchanged tree, exhibited on the model *)
+Lemma unpatched_move_agent_not_atomic :
+  exists c s a p s' e,
+    Agree c s /\ c_multi c = false /\ grid_move_agent c s a p = (s', Err e) /\
+    obs_state c 2 s' <> obs_state c 2 s /\ pos s' a = None.
+Proof.
+  exists {| c_w := 3; c_h := 2; c_torus := false; c_multi := false |}.
+  exists (run {| c_w := 3; c_h := 2; c_torus := false; c_multi := false |} init [Place 1 (0, 0); Place 2 (1, 1)]).
+  exists 1, (1, 1).
+  eexists. exists E_CELL_NOT_EMPTY.
+  split; [apply run_agree; split; reflexivity|].
+  split; [reflexivity|]. split; [vm_compute; reflexivity|].
+  split; [vm_compute; discriminate|reflexivity].
+Qed.
